@@ -6,6 +6,8 @@ package sign
 // Output gate (C01): the session's result is produced only for a signature that the textbook ECDSA equation
 // (contract of ecdsa.Signature.Verify) accepts for exactly this session's public key and message.
 //@ func (*round5).Finalize
+// (C04, C05) the round handed back carries the SAME session helper (so its FinalRoundNumber(), SelfID(), ... are those of this round)
+//@   ensures[C04,C05] result1 == nil ==> ((typeis(result0, *round.Output) ==> result0.(*round.Output).Helper == old(r.Helper)) && (typeis(result0, *round.Abort) ==> result0.(*round.Abort).Helper == old(r.Helper)))
 // (C04, C05) the round handed to the handler is one the session announced: its number is within the final round
 // number, so the handler holds a queue for it and waits for every party before finalizing it
 //@   ensures[C04,C05] result1 == nil ==> result0.Number() <= old(r.Helper.info.FinalRoundNumber)
@@ -118,6 +120,8 @@ package sign
 // through) nothing panics; the masks sampled by the provers and by the MtA stay inside Paillier's plaintext range.
 //@ pred sgall(r *round1) := forall(j, party.ID, inslice(r.Helper.partyIDs, j) ==> sgparty(r, j)) && each(r.Helper.otherPartyIDs, x, sgparty(r, x)) && sgparty(r, r.Helper.info.SelfID) && inslice(r.Helper.partyIDs, r.Helper.info.SelfID) && forall(x, party.ID, inslice(r.Helper.otherPartyIDs, x) ==> inslice(r.Helper.partyIDs, x)) && paillier.skwf(r.SecretPaillier) && r.SecretECDSA != nil
 //@ func (*round1).Finalize
+// (C04, C05) the round handed back carries the SAME session helper (so its FinalRoundNumber(), SelfID(), ... are those of this round)
+//@   ensures[C04,C05] result1 == nil ==> ((typeis(result0, *round2) ==> result0.(*round2).Helper == old(r.Helper)) && (typeis(result0, *round.Output) ==> result0.(*round.Output).Helper == old(r.Helper)) && (typeis(result0, *round.Abort) ==> result0.(*round.Abort).Helper == old(r.Helper)))
 // (C04, C05) the round handed to the handler is one the session announced: its number is within the final round
 // number, so the handler holds a queue for it and waits for every party before finalizing it
 //@   ensures[C04,C05] result1 == nil ==> result0.Number() <= old(r.Helper.info.FinalRoundNumber)
@@ -132,6 +136,8 @@ package sign
 //@   ensures typeis(result0, *round.Abort) ==> result0.(*round.Abort).Err != nil
 //@   ensures typeis(result0, *round.Output) ==> result0.(*round.Output).Result != nil
 //@ func (*round2).Finalize
+// (C04, C05) the round handed back carries the SAME session helper (so its FinalRoundNumber(), SelfID(), ... are those of this round)
+//@   ensures[C04,C05] result1 == nil ==> ((typeis(result0, *round3) ==> result0.(*round3).Helper == old(r.Helper)) && (typeis(result0, *round.Output) ==> result0.(*round.Output).Helper == old(r.Helper)) && (typeis(result0, *round.Abort) ==> result0.(*round.Abort).Helper == old(r.Helper)))
 // (C04, C05) the round handed to the handler is one the session announced: its number is within the final round
 // number, so the handler holds a queue for it and waits for every party before finalizing it
 //@   ensures[C04,C05] result1 == nil ==> result0.Number() <= old(r.Helper.info.FinalRoundNumber)
@@ -147,6 +153,8 @@ package sign
 //@   ensures typeis(result0, *round.Abort) ==> result0.(*round.Abort).Err != nil
 //@   ensures typeis(result0, *round.Output) ==> result0.(*round.Output).Result != nil
 //@ func (*round3).Finalize
+// (C04, C05) the round handed back carries the SAME session helper (so its FinalRoundNumber(), SelfID(), ... are those of this round)
+//@   ensures[C04,C05] result1 == nil ==> ((typeis(result0, *round4) ==> result0.(*round4).Helper == old(r.Helper)) && (typeis(result0, *round.Output) ==> result0.(*round.Output).Helper == old(r.Helper)) && (typeis(result0, *round.Abort) ==> result0.(*round.Abort).Helper == old(r.Helper)))
 // (C04, C05) the round handed to the handler is one the session announced: its number is within the final round
 // number, so the handler holds a queue for it and waits for every party before finalizing it
 //@   ensures[C04,C05] result1 == nil ==> result0.Number() <= old(r.Helper.info.FinalRoundNumber)
@@ -166,6 +174,8 @@ package sign
 //@   ensures typeis(result0, *round.Abort) ==> result0.(*round.Abort).Err != nil
 //@   ensures typeis(result0, *round.Output) ==> result0.(*round.Output).Result != nil
 //@ func (*round4).Finalize
+// (C04, C05) the round handed back carries the SAME session helper (so its FinalRoundNumber(), SelfID(), ... are those of this round)
+//@   ensures[C04,C05] result1 == nil ==> ((typeis(result0, *round5) ==> result0.(*round5).Helper == old(r.Helper)) && (typeis(result0, *round.Output) ==> result0.(*round.Output).Helper == old(r.Helper)) && (typeis(result0, *round.Abort) ==> result0.(*round.Abort).Helper == old(r.Helper)))
 // (C04, C05) the round handed to the handler is one the session announced: its number is within the final round
 // number, so the handler holds a queue for it and waits for every party before finalizing it
 //@   ensures[C04,C05] result1 == nil ==> result0.Number() <= old(r.Helper.info.FinalRoundNumber)
